@@ -164,6 +164,14 @@ func AddStandardFilters(fd FilterDictionary) { //nolint: gocyclo
 		// round half up; adding 0.5 before taking the floor is off by one for
 		// operands just below .5 (0.49999999999999994 + 0.5 rounds to 1)
 		x := n * exp
+		switch {
+		case math.IsInf(exp, 0) || math.IsInf(x, 0):
+			// more places than a float64 holds: n is exact already
+			return n
+		case exp == 0:
+			// rounding to a magnitude beyond every float64
+			return 0
+		}
 		r := math.Floor(x)
 		if x-r >= 0.5 {
 			r++
